@@ -413,7 +413,7 @@ func plainWord(r *rand.Rand) []byte {
 
 func runResp(c *corr.Ctx) error {
 	c.Meta("run_module", "RunResp")
-	c.Meta("rule", "every byte string of length <=4 (quick) / <=5 (thorough) over {* $ 0 1 - CR LF a}; valid arrays (nil/empty/binary/64KiB-boundary bulks, up to 5000 elements) with every truncation; 46 declared lengths (negative, zero, signs, limits +-1, 2^31-1, 2^40, 2^63-1, overflow, malformed) in multibulk and bulk position; terminator faults at every CRLF; inline commands with 25 ASCII/Unicode separators and long lines; single-byte mutations; random garbage. Observed per case: outcome class, arguments, bytes consumed, TotalAlloc delta. non-trivial = non-empty input; distinct by Gallina term")
+	c.Meta("rule", "every byte string of length <=4 (quick) / <=5 (thorough) over {* $ 0 1 - CR LF a}; valid arrays (nil/empty/binary bulks, up to 5000 elements); bulks of 64/128/256 KiB +-1 and larger delivered in full with non-uniform content, parsed bytes compared with the bytes sent with every truncation; 46 declared lengths (negative, zero, signs, limits +-1, 2^31-1, 2^40, 2^63-1, overflow, malformed) in multibulk and bulk position; terminator faults at every CRLF; inline commands with 25 ASCII/Unicode separators and long lines; single-byte mutations; random garbage. Observed per case: outcome class, arguments, bytes consumed, TotalAlloc delta. non-trivial = non-empty input; distinct by Gallina term")
 	bin, err := buildGateway(c.Out)
 	if err != nil {
 		return err
@@ -534,6 +534,19 @@ func runResp(c *corr.Ctx) error {
 		rr.run("many_elements_trunc", input[:len(input)-3], respFrame{})
 		rr.run("many_elements_declared_only", []byte(fmt.Sprintf("*%d\r\n", n)), respFrame{})
 	}
+	// big bulks delivered in full: every growth step of readBulk (64 KiB, 128 KiB,
+	// 256 KiB, +-1) with non-uniform content (runs of 997/1009/1013/61 bytes whose
+	// values cycle through 251 residues, so no run boundary is aligned with a
+	// buffer boundary); the parsed bytes must be exactly the bytes sent
+	for _, l := range []int{65535, 65536, 65537, 100000, 131071, 131072, 131073, 262143, 262144, 262145, c.Scale(300000, 1100000)} {
+		payload := patternBytes(l, l)
+		args := [][]byte{[]byte("SET"), []byte("k"), payload}
+		rest := encArray([][]byte{[]byte("PING")})
+		rr.run("big_bulk_exact", append(encArray(args), rest...),
+			respFrame{Kind: "array", Args: hexArgs(args), Rest: hex.EncodeToString(rest)})
+		two := [][]byte{patternBytes(l, 7), []byte("x"), patternBytes(70000, l)}
+		rr.run("big_bulk_exact", encArray(two), respFrame{Kind: "array", Args: hexArgs(two)})
+	}
 	// big bulks: declared but short
 	for _, l := range []int{65536, 65537, 131072, 131073, 300000, 536870912} {
 		for _, have := range []int{0, 1, 65535, 65536, 65537, 131072, 140000} {
@@ -589,6 +602,20 @@ func runResp(c *corr.Ctx) error {
 		rr.run("garbage", randBytes(r, r.Intn(40)), respFrame{})
 	}
 	return nil
+}
+
+// patternBytes returns n bytes made of runs of varying length and value: it
+// compresses well (compress: runs >= 48) and is not periodic in any power of two.
+func patternBytes(n, salt int) []byte {
+	out := make([]byte, 0, n)
+	lens := []int{997, 1009, 61, 1013, 4099}
+	for i := 0; len(out) < n; i++ {
+		v := byte(1 + (i*7+salt)%251)
+		for j := 0; j < lens[i%len(lens)] && len(out) < n; j++ {
+			out = append(out, v)
+		}
+	}
+	return out
 }
 
 func allIndex(b, sep []byte) []int {
